@@ -984,6 +984,7 @@ def doc_scenario(sc):
     returns a list of failure strings (empty = the property holds on this scenario)"""
     import html as htmlmod, re
     rng = random.Random(sc['seed'])
+    A, B = sc.get('names', ['a', 'b'])      # A: the document whose labels are saved; B: the document referring to them
     fails = []
     d = tempfile.mkdtemp(prefix='c20doc-')
     try:
@@ -993,10 +994,10 @@ def doc_scenario(sc):
             elif kind == 'subsection': body.append('\\subsection{%s}\\label{%s}\nText.' % (title, lab))
             elif kind == 'equation': body.append('\\begin{equation}x=1\\label{%s}\\end{equation}' % lab)
             else: body.append('\\begin{figure}\\caption{%s}\\label{%s}\\end{figure}' % (title, lab))
-        open(os.path.join(d, 'a.tex'), 'w').write('\\documentclass{article}\n\\begin{document}\n%s\n\\end{document}\n' % '\n'.join(body))
-        open(os.path.join(d, 'b.tex'), 'w').write('\\documentclass{article}\n\\begin{document}\n\\section{Other}\n%s\n\\end{document}\n' %
+        open(os.path.join(d, A + '.tex'), 'w').write('\\documentclass{article}\n\\begin{document}\n%s\n\\end{document}\n' % '\n'.join(body))
+        open(os.path.join(d, B + '.tex'), 'w').write('\\documentclass{article}\n\\begin{document}\n\\section{Other}\n%s\n\\end{document}\n' %
                                                   '\n'.join('R(\\ref{%s})' % lab for _, lab, _ in sc['labels']))
-        paux = os.path.join(d, 'a.paux')
+        paux = os.path.join(d, A + '.paux')
         labs = [lab for _, lab, _ in sc['labels']]
 
         def load():
@@ -1014,14 +1015,14 @@ def doc_scenario(sc):
             return v
 
         def check_refs(when, r, v):
-            e = run_document(d, 'b.tex', r, -100)
+            e = run_document(d, B + '.tex', r, -100)
             if e is not None:
                 fails.append('%s: processing b.tex under %s failed: %r' % (when, r, e)); return
             if v is None:
                 return
             ext = 'index.html'
             try:
-                out = open(os.path.join(d, 'b', ext), encoding='utf-8').read()
+                out = open(os.path.join(d, B, ext), encoding='utf-8').read()
             except Exception as e:
                 fails.append('%s: no output of b.tex (%r)' % (when, e)); return
             got = re.findall(r'R\(<a href="([^"]*)">(.*?)</a>\)', out, re.S)
@@ -1032,7 +1033,7 @@ def doc_scenario(sc):
 
         rs = sc['renderers']
         for r in rs:
-            e = run_document(d, 'a.tex', r, 2)
+            e = run_document(d, A + '.tex', r, 2)
             if e is not None:
                 fails.append('first run of a.tex under %s failed: %r' % (r, e))
         v = check_complete('after the first runs', rs)
@@ -1051,10 +1052,10 @@ def doc_scenario(sc):
         if new is None: os.remove(paux)
         else: open(paux, 'wb').write(new)
         for r in rs:                                    # another document is processed while the file is damaged
-            e = run_document(d, 'b.tex', r, -100)
+            e = run_document(d, B + '.tex', r, -100)
             if e is not None:
                 fails.append('damage %s: processing b.tex under %s failed: %r' % (kind, r, e))
-        e = run_document(d, 'a.tex', rs[0], 2)          # the next save
+        e = run_document(d, A + '.tex', rs[0], 2)          # the next save
         if e is not None:
             fails.append('damage %s: re-running a.tex under %s failed: %r' % (kind, rs[0], e))
         v = check_complete('after damage %s and the next save' % kind, rs[:1])
@@ -1076,14 +1077,18 @@ def gen_doc_scenario(rng):
     rs = rng.choice([['HTML5'], ['HTML5'], ['HTML5', 'XHTML'], ['XHTML', 'HTML5']])
     kind = rng.choice(['trunc', 'flip', 'foreign', 'empty', 'delete', 'none'])
     arg = rng.random() if kind == 'trunc' else rng.randrange(1 << 30)
-    return {'labels': labels, 'renderers': rs, 'damage': [kind, arg], 'seed': rng.randrange(1 << 30)}
+    # document names, including pairs in a prefix/suffix relation (the own .paux is told apart from the others by name)
+    names = rng.choice([['a', 'b'], ['a', 'b'], ['part-intro', 'intro'], ['intro', 'part-intro'], ['xa', 'a'], ['doc', 'doc2'], ['b.c', 'c']])
+    return {'labels': labels, 'renderers': rs, 'damage': [kind, arg], 'names': names, 'seed': rng.randrange(1 << 30)}
 
 
 def extra_checks(ctx):
-    n = 6 if ctx.tier == 'quick' else 40
+    n = 8 if ctx.tier == 'quick' else 40
     viol, samples, nontriv = [], [], 0
     for i in range(n):
         sc = gen_doc_scenario(ctx.rng)
+        if i == 0:
+            sc['names'] = ['part-intro', 'intro']     # always: the referring document's name is a suffix of the saved one's
         fails = doc_scenario(sc)
         ctx.count('doc-damage:' + sc['damage'][0])
         nontriv += 1
